@@ -2,6 +2,7 @@ package props
 
 import (
 	"fmt"
+	"reflect"
 	"strings"
 
 	"github.com/kstenerud/go-concise-encoding/ce"
@@ -10,16 +11,250 @@ import (
 
 	"verif/internal/ev"
 	"verif/internal/gen"
+	"verif/internal/harness"
 	"verif/internal/model"
 )
 
-// C13 (validator half) — markers and local references are consistent in every accepted document.
+// C13 — markers and local references are consistent in every accepted document.
 // Oracle: M-MARK (internal/model/markers.go), accept/reject of the whole stream.
 
 type C13Case struct {
 	MaxIDLen int        `json:"max_id_len"`
 	Mutation string     `json:"mutation"`
 	Events   []ev.Event `json:"events"`
+	// builder half (Mutation == "build"): a flat container of integers, some marked, some given as
+	// references (backward or forward) to a marked one, unmarshaled into a typed or untyped template
+	Format string    `json:"format,omitempty"`
+	Tmpl   string    `json:"template,omitempty"`
+	Elems  []C13Elem `json:"elems,omitempty"`
+}
+
+// C13Elem: Kind "v" plain value, "m" marked value (marker ID), "r" reference to marker ID.
+type C13Elem struct {
+	Kind string `json:"kind"`
+	ID   string `json:"id,omitempty"`
+	Val  int64  `json:"val,omitempty"`
+}
+
+var c13Templates = []string{"[]int64", "[]interface", "[24]int64", "map[string]int64", "[]*int64", "map[interface]interface", "struct", "nil-list", "nil-map", "[][]int64"}
+
+type c13Struct struct {
+	K0, K1, K2, K3, K4, K5, K6, K7 int64
+}
+
+func genC13Build(t *rapid.T) *C13Case {
+	c := &C13Case{Mutation: "build", MaxIDLen: 1000, Format: rapid.SampledFrom([]string{"cbe", "cte"}).Draw(t, "format"),
+		Tmpl: rapid.SampledFrom(c13Templates).Draw(t, "tmpl")}
+	n := rapid.IntRange(1, 24).Draw(t, "n")
+	if c.Tmpl == "struct" && n > 8 {
+		n = 8
+	}
+	// first choose which positions are marked, then let references point to any marked position
+	var marked []int
+	kinds := make([]string, n)
+	for i := 0; i < n; i++ {
+		kinds[i] = rapid.SampledFrom([]string{"v", "v", "m", "r", "r"}).Draw(t, "kind")
+		if kinds[i] == "m" {
+			marked = append(marked, i)
+		}
+	}
+	vals := make([]int64, n)
+	for i := 0; i < n; i++ {
+		switch kinds[i] {
+		case "r":
+			if len(marked) == 0 {
+				kinds[i] = "v"
+			}
+		}
+		vals[i] = int64(rapid.IntRange(-1000, 100000).Draw(t, "val"))
+	}
+	for i := 0; i < n; i++ {
+		e := C13Elem{Kind: kinds[i], Val: vals[i]}
+		switch kinds[i] {
+		case "m":
+			e.ID = fmt.Sprintf("m%d", i)
+		case "r":
+			tgt := marked[rapid.IntRange(0, len(marked)-1).Draw(t, "tgt")]
+			e.ID = fmt.Sprintf("m%d", tgt)
+			e.Val = vals[tgt]
+		}
+		c.Elems = append(c.Elems, e)
+	}
+	return c
+}
+
+func (c *C13Case) buildEvents() []ev.Event {
+	isMap := strings.HasPrefix(c.Tmpl, "map") || c.Tmpl == "struct" || c.Tmpl == "nil-map"
+	nested := c.Tmpl == "[][]int64"
+	evs := []ev.Event{{K: ev.BD}, {K: ev.Version}}
+	if isMap {
+		evs = append(evs, ev.Event{K: ev.Map})
+	} else {
+		evs = append(evs, ev.Event{K: ev.List})
+	}
+	for i, e := range c.Elems {
+		if isMap {
+			evs = append(evs, ev.Event{K: ev.StringArray, AT: events.ArrayTypeString, S: fmt.Sprintf("K%d", i)})
+		}
+		val := []ev.Event{{K: ev.Int, I: e.Val}}
+		if nested {
+			val = []ev.Event{{K: ev.List}, {K: ev.Int, I: e.Val}, {K: ev.Int, I: e.Val + 1}, {K: ev.End}}
+		}
+		switch e.Kind {
+		case "m":
+			evs = append(evs, ev.Event{K: ev.Marker, Bs: []byte(e.ID)})
+			evs = append(evs, val...)
+		case "r":
+			evs = append(evs, ev.Event{K: ev.RefLocal, Bs: []byte(e.ID)})
+		default:
+			evs = append(evs, val...)
+		}
+	}
+	return append(evs, ev.Event{K: ev.End}, ev.Event{K: ev.ED})
+}
+
+func (c *C13Case) template() interface{} {
+	switch c.Tmpl {
+	case "[]int64":
+		return []int64{}
+	case "[]interface":
+		return []interface{}{}
+	case "[24]int64":
+		return [24]int64{}
+	case "map[string]int64":
+		return map[string]int64{}
+	case "[]*int64":
+		return []*int64{}
+	case "map[interface]interface":
+		return map[interface{}]interface{}{}
+	case "struct":
+		return c13Struct{}
+	case "[][]int64":
+		return [][]int64{}
+	}
+	return nil
+}
+
+// checkBuilt verifies that every position (plain, marked, reference) holds the expected integer.
+func (c *C13Case) checkBuilt(res interface{}) error {
+	rv := reflect.ValueOf(res)
+	for rv.IsValid() && (rv.Kind() == reflect.Ptr || rv.Kind() == reflect.Interface) && !rv.IsNil() {
+		rv = rv.Elem()
+	}
+	if !rv.IsValid() {
+		return fmt.Errorf("result is nil")
+	}
+	intOf := func(v reflect.Value) (int64, error) {
+		for v.IsValid() && (v.Kind() == reflect.Ptr || v.Kind() == reflect.Interface) {
+			if v.IsNil() {
+				return 0, fmt.Errorf("nil")
+			}
+			v = v.Elem()
+		}
+		if c.Tmpl == "[][]int64" {
+			if !v.IsValid() || v.Kind() != reflect.Slice || v.Len() != 2 {
+				return 0, fmt.Errorf("not a two-element list: %v", v)
+			}
+			a, b := v.Index(0).Int(), v.Index(1).Int()
+			if b != a+1 {
+				return 0, fmt.Errorf("inner list [%d %d]", a, b)
+			}
+			return a, nil
+		}
+		if !v.IsValid() {
+			return 0, fmt.Errorf("missing")
+		}
+		switch v.Kind() {
+		case reflect.Int, reflect.Int8, reflect.Int16, reflect.Int32, reflect.Int64:
+			return v.Int(), nil
+		case reflect.Uint, reflect.Uint8, reflect.Uint16, reflect.Uint32, reflect.Uint64:
+			return int64(v.Uint()), nil
+		}
+		return 0, fmt.Errorf("a %v", v.Type())
+	}
+	for i, e := range c.Elems {
+		var ev reflect.Value
+		switch rv.Kind() {
+		case reflect.Slice, reflect.Array:
+			if i >= rv.Len() {
+				return fmt.Errorf("element %d is missing (result has %d elements)", i, rv.Len())
+			}
+			ev = rv.Index(i)
+		case reflect.Map:
+			key := reflect.ValueOf(fmt.Sprintf("K%d", i))
+			if rv.Type().Key().Kind() == reflect.Interface {
+				k2 := reflect.New(rv.Type().Key()).Elem()
+				k2.Set(key)
+				key = k2
+			}
+			ev = rv.MapIndex(key)
+		case reflect.Struct:
+			ev = rv.FieldByName(fmt.Sprintf("K%d", i))
+		default:
+			return fmt.Errorf("result is a %v", rv.Type())
+		}
+		got, err := intOf(ev)
+		if err != nil {
+			return fmt.Errorf("position %d (%s %s): expected %d, found %v", i, e.Kind, e.ID, e.Val, err)
+		}
+		if got != e.Val {
+			return fmt.Errorf("position %d (%s %s): expected %d, found %d", i, e.Kind, e.ID, e.Val, got)
+		}
+	}
+	if (rv.Kind() == reflect.Slice || rv.Kind() == reflect.Map) && rv.Len() != len(c.Elems) {
+		return fmt.Errorf("result has %d entries, the document %d", rv.Len(), len(c.Elems))
+	}
+	return nil
+}
+
+func (c *C13Case) checkBuild(ctx *Ctx) error {
+	cfg := newCfg()
+	evs := c.buildEvents()
+	fwd, refs := false, 0
+	seen := map[string]bool{}
+	for _, e := range c.Elems {
+		if e.Kind == "m" {
+			seen[e.ID] = true
+		}
+		if e.Kind == "r" {
+			refs++
+			if !seen[e.ID] {
+				fwd = true
+			}
+		}
+	}
+	ctx.NonTrivial(fwd)
+	ctx.Label("mutation:build")
+	ctx.Label("build-template:" + c.Tmpl)
+	ctx.LabelIf(fwd, "forward-ref")
+	ctx.LabelIf(refs > 0 && !fwd, "backward-refs-only")
+	ctx.LabelIf(len(c.Elems) > 4, "build: more than 4 elements")
+	var doc []byte
+	var idx int
+	var err error
+	if c.Format == "cbe" {
+		doc, idx, err = encodeCBE(evs, cfg)
+	} else {
+		doc, idx, err = encodeCTE(evs, cfg)
+	}
+	if idx >= 0 {
+		return fmt.Errorf("harness: the generated marker/reference document is rejected at event %d: %v\n%s", idx, err, ev.ListString(evs))
+	}
+	if c.Tmpl == "[]*int64" && harness.Open("S67-ref-into-pointer-slice") {
+		ctx.Stats.Exclude("S67-ref-into-pointer-slice")
+		return nil
+	}
+	res, uerr, bad := unmarshalDoc(ctx, c.Format, doc, c.template(), cfg)
+	if bad != nil {
+		return fmt.Errorf("%v\ndoc=%s", bad, docdump(c.Format, doc))
+	}
+	if uerr != nil {
+		return fmt.Errorf("a document the validator accepts failed to unmarshal into %s: %v\ndoc=%s", c.Tmpl, uerr, docdump(c.Format, doc))
+	}
+	if err := c.checkBuilt(res); err != nil {
+		return fmt.Errorf("references were not replaced by the marked values (template %s): %v\ndoc=%s", c.Tmpl, err, docdump(c.Format, doc))
+	}
+	return nil
 }
 
 var c13BadIDs = []string{"", "a b", "a:b", "€", "a\xffb", "x/y", "\U0001F642", "a\x00", "!", "\"q\"", "a\nb", "�"}
@@ -49,6 +284,9 @@ func insertEvent(evs []ev.Event, at int, e ev.Event) []ev.Event {
 }
 
 func genC13(t *rapid.T, ctx *Ctx) interface{} {
+	if rapid.IntRange(0, 3).Draw(t, "half") == 0 {
+		return genC13Build(t)
+	}
 	c := &C13Case{MaxIDLen: rapid.SampledFrom([]int{1000, 1000, 1000, 20, 6, 3, 1}).Draw(t, "maxid")}
 	evs := gen.Document(t, c13Opts(ctx))
 	markers := findKinds(evs, ev.Marker)
@@ -151,11 +389,24 @@ func genC13(t *rapid.T, ctx *Ctx) interface{} {
 		marked := append([]ev.Event{{K: ev.Marker, Bs: []byte("tgt")}}, target...)
 		keyMap := []ev.Event{{K: ev.Map}, {K: ev.RefLocal, Bs: []byte("tgt")}, {K: ev.Int, I: 1}, {K: ev.End}}
 		evs = []ev.Event{{K: ev.BD}, {K: ev.Version}, {K: ev.List}}
-		if rapid.Bool().Draw(t, "forward") {
-			evs = append(append(evs, keyMap...), marked...)
-		} else {
-			evs = append(append(evs, marked...), keyMap...)
+		// further references to the same marker in value positions, before / between / after (each
+		// reference constrains the marked object on its own; none may loosen the key constraint)
+		extra := func(label string) {
+			if rapid.IntRange(0, 2).Draw(t, label) == 0 {
+				evs = append(evs, ev.Event{K: ev.RefLocal, Bs: []byte("tgt")})
+			}
 		}
+		extra("xref0")
+		if rapid.Bool().Draw(t, "forward") {
+			evs = append(evs, keyMap...)
+			extra("xref1")
+			evs = append(evs, marked...)
+		} else {
+			evs = append(evs, marked...)
+			extra("xref1")
+			evs = append(evs, keyMap...)
+		}
+		extra("xref2")
 		evs = append(evs, ev.Event{K: ev.End}, ev.Event{K: ev.ED})
 	}
 	c.Events = evs
@@ -169,6 +420,9 @@ func init() {
 		Gen: genC13,
 		Check: func(ci interface{}, ctx *Ctx) error {
 			c := ci.(*C13Case)
+			if c.Mutation == "build" {
+				return c.checkBuild(ctx)
+			}
 			cfg := newCfg()
 			cfg.Rules.MaxIdentifierLength = uint64(c.MaxIDLen)
 			v := model.CheckMarkers(c.Events, c.MaxIDLen)
